@@ -31,7 +31,11 @@ vars == <<n, ins, file>>
 
 StringText == <<"", "a", "hello world", "#x">>     \* Codec<std::string> of the harness
 IntText    == <<"0", "-10", "7", "100">>           \* std::to_string of Codec<int>
-LabelText(a) == IF Codec = "string" THEN StringText[a + 1] ELSE IF Codec = "int" THEN IntText[a + 1] ELSE ""
+\* a caller's own formatter / parser pair for char labels, in which a NON-default label ('a') is
+\* written as the empty text ("the commonest label is omitted") and the default label as "0"
+CharText   == <<"0", "", "Z", "#">>
+LabelText(a) == IF Codec = "string" THEN StringText[a + 1] ELSE IF Codec = "int" THEN IntText[a + 1]
+                ELSE IF Codec = "char" THEN CharText[a + 1] ELSE ""
 \* the label parser handed the rest of the line (unknown text -> label 99)
 LabelOfText(t) ==
     IF Codec = "none" THEN DefL
